@@ -437,7 +437,9 @@ func (r *c10Run) step(ctx context.Context, raw json.RawMessage) {
 					r.expected++
 				}
 			}
-			r.b.Emit("Burst", "e", id, "L1", l1, "L2", l2, "err1", e1 != nil, "err2", e2 != nil)
+			// recorded as two successful discoveries with no dump in between
+			r.b.Emit("Reg", "e", id, "L", l1, "err", e1 != nil, "burst", 1)
+			r.b.Emit("Reg", "e", id, "L", l2, "err", e2 != nil, "burst", 2)
 		}
 	case "Par":
 		// operations on pairwise distinct endpoints, released together
